@@ -44,9 +44,9 @@ type LSession struct {
 	Twin     [][]LMsg `json:"twin"`
 	TwinBase int32    `json:"twinbase"`
 	Feat     []string `json:"feat"`
-	Exact    bool     `json:"exact"`  // listen level: the driver's clock origin was pinned (see runSession), so time stamps are absolute: stamp = sum of dt
-	OnErr    bool     `json:"onerr"`  // an error handler is installed (midi.HandleError at listen level, ListenConfig.OnErr at reader level)
-	Errs     int      `json:"errs"`   // number of times it was called
+	Exact    bool     `json:"exact"` // listen level: the driver's clock origin was pinned (see runSession), so time stamps are absolute: stamp = sum of dt
+	OnErr    bool     `json:"onerr"` // an error handler is installed (midi.HandleError at listen level, ListenConfig.OnErr at reader level)
+	Errs     int      `json:"errs"`  // number of times it was called
 }
 
 func cp(b []byte) hx.B { return append(hx.B{}, b...) }
